@@ -700,11 +700,35 @@ impl TypedScenario for C02Rows {
     }
 }
 
+/// "connect yields a usable session iff the server accepts, fails as 'session rejected' iff the
+/// server answers non-2xx": the library's own server can only answer 200 / 403 / 404 / 429, so
+/// the rest of the status space comes from the scripted raw server of C18's status scenario.
+pub struct C02Status;
+
+impl TypedScenario for C02Status {
+    type Plan = crate::props::c18::StatusPlan;
+    fn name(&self) -> &'static str {
+        "raw-response-status"
+    }
+    fn budget(&self, tier: Tier) -> usize {
+        match tier {
+            Tier::Quick => 1300,
+            Tier::Thorough => 70_000,
+        }
+    }
+    fn generate(&self, seed: u64, index: usize, tier: Tier) -> Self::Plan {
+        crate::props::c18::gen_status(seed, index, tier)
+    }
+    fn execute(&self, plan: &Self::Plan, trace: bool) -> Exec {
+        crate::props::c18::exec_status(plan, trace).relabel("C18/", "C02/")
+    }
+}
+
 pub fn def() -> PropertyDef {
     PropertyDef {
         id: "C02",
-        scenarios: vec![Box::new(Typed(C02E2E { faulty: false })), Box::new(Typed(C02E2E { faulty: true })), Box::new(Typed(C02Rows))],
-        rule: "Each run: real client connects to a real server over the simulated network with a URL generated from a grammar: host in {IPv4 literal, IPv6 literal, DNS name through a simulated resolver (incl. punycode IDN, upper-case spelling)}, port in {absent, explicit 443, 4433, random}, optional userinfo, 0-4 path segments over unreserved / sub-delim characters and percent-escapes, optional (possibly empty) query, optional fragment; 0-8 additional header fields (names: QPACK static-table names with matching value, with literal value, fresh lower-case tokens; values over Huffman-shrinking / non-shrinking / mixed alphabets with lengths on both sides of every prefix-integer boundary 6/7/8, 14/15/16, 126/127/128, 254/255/256; total below the 4096 B frame limit); server decision in {accept, accept_with_headers(extras), forbidden, not_found, too_many_requests}; resolver outcome in {address, none, error}. Oracle (expected values computed from the grammar pieces): server sees exactly the canonical authority (default port omitted), path-with-query (no fragment) and exactly the additional fields plus the five pseudo-headers; origin()/user_agent() agree; connect() is Ok iff accepted and SessionRejected iff rejected whatever the response extras; both sides report session id 0 = the CONNECT stream; resolver none -> DnsNotFound, error -> DnsLookup, and the resolver is asked for exactly host:port. Every completed run is non-trivial; distinct = distinct plan hashes. raw-static-table-rows: a raw client sends a valid CONNECT whose fields are hand-assembled QPACK representations - the pseudo-headers as indexed / name-referenced static rows, plus every non-pseudo row of the RFC 9204 static table as a fully indexed field line (each of the 99 rows once, then sampled sets) and name references with literal (Huffman / plain) values; the server application must see exactly the (name, value) of the reference table.",
+        scenarios: vec![Box::new(Typed(C02E2E { faulty: false })), Box::new(Typed(C02E2E { faulty: true })), Box::new(Typed(C02Rows)), Box::new(Typed(C02Status))],
+        rule: "Each run: real client connects to a real server over the simulated network with a URL generated from a grammar: host in {IPv4 literal, IPv6 literal, DNS name through a simulated resolver (incl. punycode IDN, upper-case spelling)}, port in {absent, explicit 443, 4433, random}, optional userinfo, 0-4 path segments over unreserved / sub-delim characters and percent-escapes, optional (possibly empty) query, optional fragment; 0-8 additional header fields (names: QPACK static-table names with matching value, with literal value, fresh lower-case tokens; values over Huffman-shrinking / non-shrinking / mixed alphabets with lengths on both sides of every prefix-integer boundary 6/7/8, 14/15/16, 126/127/128, 254/255/256; total below the 4096 B frame limit); server decision in {accept, accept_with_headers(extras), forbidden, not_found, too_many_requests}; resolver outcome in {address, none, error}. Oracle (expected values computed from the grammar pieces): server sees exactly the canonical authority (default port omitted), path-with-query (no fragment) and exactly the additional fields plus the five pseudo-headers; origin()/user_agent() agree; connect() is Ok iff accepted and SessionRejected iff rejected whatever the response extras; both sides report session id 0 = the CONNECT stream; resolver none -> DnsNotFound, error -> DnsLookup, and the resolver is asked for exactly host:port. Every completed run is non-trivial; distinct = distinct plan hashes. raw-static-table-rows: a raw client sends a valid CONNECT whose fields are hand-assembled QPACK representations - the pseudo-headers as indexed / name-referenced static rows, plus every non-pseudo row of the RFC 9204 static table as a fully indexed field line (each of the 99 rows once, then sampled sets) and name references with literal (Huffman / plain) values; the server application must see exactly the (name, value) of the reference table. raw-response-status: a raw server answers the real client's CONNECT with every integer status 0..1199 (quick; 0..65535 thorough) and malformed status strings; connect() must give a session iff the status is a three-digit 2xx and 'session rejected' for any other three-digit status in 100..599 (the scenario of C18, run here because the library's own server only ever answers 200 / 403 / 404 / 429).",
         assumptions: vec![
             "URLs are generated already in the canonical form of the WHATWG URL rules (no dot segments, no characters that need escaping) so that the expected value does not depend on the url crate",
             "under faults a handshake that dies is inconclusive; quinn/rustls/tokio are real but trusted",
